@@ -378,6 +378,9 @@ class Scheduler(object):
             self.cv.notify_all()
 
 
+_stuck = [0]
+
+
 def run_threads(sources_opts, turns):
     n = len(sources_opts)
     sched = Scheduler(n, turns)
@@ -397,11 +400,17 @@ def run_threads(sources_opts, turns):
             sys.settrace(None)
             sched.finish(i)
 
-    threads = [threading.Thread(target=worker, args=(i,)) for i in range(n)]
+    threads = [threading.Thread(target=worker, args=(i,), daemon=True) for i in range(n)]
     for t in threads:
         t.start()
     for t in threads:
         t.join(120)
+    if any(t.is_alive() for t in threads):
+        # never hang the harness on a system under test that does not return
+        _stuck[0] += 1
+        if _stuck[0] >= 2:
+            raise RuntimeError('minify() did not return within 120 s inside scheduled threads (twice): giving up (harness error)')
+        raise api.MinifyTimeout('threads did not finish')
     return results, sched
 
 
